@@ -16,6 +16,6 @@ def generators(tier, seed):
 
 MANIFEST = dict(
     design_ref="DESIGN.md §5 C13",
-    text="TLC enumerates literal x separator x quoting x operator x zone (and relative literals under a controlled clock); each is one run over a world holding one file per instant on the a-1..b+1 grid of every literal; Judge_C13 validates the returned names against the closed-interval semantics computed by Civil.tla and the printed `modified` text against StampText.",
+    text="TLC enumerates literal x separator x quoting x operator x zone (and relative literals under a controlled clock); each is one run over a world holding one file per instant on the a-1..b+1 grid of every literal; Judge_C13 validates the returned names against the closed-interval semantics computed by Civil.tla and the printed `modified` text against StampText. The transition days of a zone with daylight saving time are judged in wall-clock time.",
     note="Trusted: TLC, Civil.tla, the LD_PRELOAD clock shim, tzdata. Zones: UTC and a fixed +3 offset (no DST transitions); === / !== on dates and chrono-english free-form literals are left open.",
     technique="TLC literal enumeration + replay under controlled clock/zone + TLA+ judge")
